@@ -16,12 +16,18 @@ class Scenario:
         self.tpath = os.path.join(wd, cid + ".tgt"); self.bpath = os.path.join(wd, cid + ".B")
         self.spaths = [os.path.join(wd, "%s.A%d" % (cid, i)) for i in range(len(self.sources))]
         self.snaps = []
+        # state carried on a SOURCE context before it is used (C08): per source index, script lines run between its open and
+        # the copy ({c} = its context slot, {p} = its path), and optionally the bytes the file holds when it is opened
+        # (self.sources[i] is what it holds when the copy runs - the facts are computed from that)
+        self.src_prep = {}; self.src_initial = {}; self.aux = {}
 
     def write_files(self, keep_target=False):
         if not keep_target:
             open(self.tpath, "wb").write(self.T0)
         open(self.bpath, "wb").write(self.B)
-        for p, a in zip(self.spaths, self.sources):
+        for i, (p, a) in enumerate(zip(self.spaths, self.sources)):
+            open(p, "wb").write(self.src_initial.get(i, a))
+        for p, a in self.aux.items():
             open(p, "wb").write(a)
 
     def snap(self, tag):
@@ -41,7 +47,9 @@ class Scenario:
             L += ["seek 0 %d" % first, "write_zck_header_cb 0 file:%s:%d:%d" % (self.bpath, first, h.hdr_total - first)]
         L += ["seek 0 %d" % p1, "read_header 0", self.snap("hdr"), "find_valid 0"]
         for i, sp in enumerate(self.spaths):
-            L += ["ctx %d" % (i + 1), "open %d %s r" % (i + 1, sp), "init_read %d %d" % (i + 1, i + 1), "copy_chunks %d 0" % (i + 1), self.snap("copy%d" % i)]
+            L += ["ctx %d" % (i + 1), "open %d %s r" % (i + 1, sp), "init_read %d %d" % (i + 1, i + 1)]
+            L += [l.format(c=i + 1, p=sp) for l in self.src_prep.get(i, [])]
+            L += ["copy_chunks %d 0" % (i + 1), self.snap("copy%d" % i)]
         L += ["reset_failed 0"]
         n = len(h.entries)
         nr = self.rounds if self.rounds is not None else (n + 3 if self.limit != -1 else 3)
@@ -57,7 +65,7 @@ class Scenario:
 
 def replay_files(sc):
     """what a stored replay script needs: B, the sources, and the target as it was before the run"""
-    return [sc.bpath] + list(sc.spaths) + [(sc.tpath, sc.T0)]
+    return [sc.bpath] + [((p, sc.src_initial[i]) if i in sc.src_initial else p) for i, p in enumerate(sc.spaths)] + [(sc.tpath, sc.T0)] + [(p, a) for p, a in sc.aux.items()]
 
 
 def extents(h):
@@ -144,7 +152,7 @@ def enrich(sc, ce):
         elif op == "find_valid":
             d, z = disk_facts(cur, B, h)
             out.append({"op": "scan", "vec": e["valid"], "disk": d, "sized": sized, "ret": e["ret"]}); valid = e["valid"]
-        elif op == "copy_chunks":
+        elif op == "copy_chunks" and e.get("c", 0) == 0:
             after = rd("copy%d" % copy_i)
             src = sc.sources[copy_i]; sp = sc.spaths[copy_i]
             m, u = source_match(h, src)
